@@ -37,6 +37,11 @@ TRUSTED = [
 ]
 ASSUMPTIONS = ["type_mappings is a HashMap: lookup by exact key, one entry per key (modelled as an association list without duplicate keys)"]
 
+# Named leaves whose identifiers contain 2-, 3- and 4-byte UTF-8 characters at the start, in the middle, at the end, several
+# per name (legal Rust identifiers; the TypeScript side must carry the name verbatim)
+UNI_LEAVES = ["String", "i32", "\u00c4rger", "Gr\u00f6\u00dfe", "Se\u00f1al", "Na\u00efvet\u00e9", "\u6570\u636e", "Row\u540d\u524d", "T\u00fcr\u00e9",
+              "\U0001d4b3form", "Da\U0001d4b3ta", "Type\U0001d4b3", "User"]
+UNI_CORE = ["String", "\u00c4rger", "Gr\u00f6\u00dfe", "\u6570\u636e", "Type\U0001d4b3", "Da\U0001d4b3ta"]
 SITES = ["param", "return", "field", "channel", "event"]
 MODES = ["none", "zod"]
 KF_BY_CLASS = {
@@ -58,22 +63,63 @@ def text_of(v):
     return v
 
 
+def non_ascii_renaming(t, acc=None):
+    """{name: fresh ASCII identifier} for every path name of the type that contains a non-ASCII character"""
+    acc = acc if acc is not None else {}
+    if t[0] == "p":
+        if any(ord(ch) > 127 for ch in t[1]) and t[1] not in acc:
+            acc[t[1]] = "Nx%dq" % len(acc)
+        for a in t[2]:
+            non_ascii_renaming(a, acc)
+    elif t[0] == "r":
+        non_ascii_renaming(t[1], acc)
+    else:
+        for a in t[1]:
+            non_ascii_renaming(a, acc)
+    return acc
+
+
+def rename_tree(t, ren):
+    if t[0] == "p":
+        return ["p", ren.get(t[1], t[1]), [rename_tree(a, ren) for a in t[2]]]
+    if t[0] == "r":
+        return ["r", rename_tree(t[1], ren)]
+    return ["t", [rename_tree(a, ren) for a in t[1]]]
+
+
+def rename_text(x, ren):
+    for k in sorted(ren, key=len, reverse=True):
+        x = x.replace(k, ren[k])
+    return x
+
+
 def evaluate(cases, kf_by_class=KF_BY_CLASS, want=None):
     """cases: [{"ty": tree, "mappings": {..}|None}] -> (outcomes per (type,site,mode), pipeline outcomes, stats)"""
     hcases = [{"id": i, "ty": T.tts(c["ty"]), "mappings": c.get("mappings")} for i, c in enumerate(cases)]
     obs = vlib.run_harness("c05-emit", hcases, per_case_timeout=20)
-    sexps = []
-    for c, o in zip(cases, obs):
-        texts = []
-        for md in MODES:
-            for s in SITES:
-                texts.append(text_of((o.get(md) or {}).get(s)) if "panic" not in o and "error" not in o else "")
+
+    def texts_of(o):
+        return [text_of((o.get(md) or {}).get(s)) if "panic" not in o and "error" not in o else ""
+                for md in MODES for s in SITES]
+
+    sexps, ascii_idx, ascii_sexps = [], [], []
+    for i, (c, o) in enumerate(zip(cases, obs)):
         m = sorted((c.get("mappings") or {}).items())
-        sexps.append(sx([T.sx_ty(c["ty"]), [[k, v] for k, v in m], texts]))
+        sexps.append(sx([T.sx_ty(c["ty"]), [[k, v] for k, v in m], texts_of(o)]))
+        ren = non_ascii_renaming(c["ty"])
+        if ren:
+            # names with non-ASCII letters: the TypeScript side must carry the name VERBATIM. The specification's
+            # lexer is ASCII-only, so the oracle is applied to the image of the case under a consistent renaming of
+            # those names to fresh ASCII identifiers (in the Rust type and in the implementation's texts alike);
+            # correspondence is still checked on the real bytes.
+            ascii_idx.append(i)
+            ascii_sexps.append(sx([T.sx_ty(rename_tree(c["ty"], ren)), [[k, v] for k, v in m],
+                                   [rename_text(x, ren) for x in texts_of(o)]]))
     res = vlib.run_runner("c05-emit", sexps)
+    ascii_res = dict(zip(ascii_idx, vlib.run_runner("c05-emit", ascii_sexps)))
     site_out, pipe_out = [], []
     stats = {"in_class_but_ok": {}, "out_of_domain": 0, "classes": {}}
-    for c, o, r in zip(cases, obs, res):
+    for ci, (c, o, r) in enumerate(zip(cases, obs, res)):
         base = {"ty": T.tts(c["ty"]), "tree": c["ty"]}
         if c.get("mappings"):
             base["mappings"] = c["mappings"]
@@ -85,6 +131,12 @@ def evaluate(cases, kf_by_class=KF_BY_CLASS, want=None):
                                     detail={"impl": o.get("panic") or o.get("error")}, nontrivial=nontriv))
             continue
         m_tts, m_struct, m_sem, m_opt, m_dom, m_sites, m_plain, m_prefix, m_zv = r
+        if ci in ascii_res:
+            # verdicts (domain, oracle, classes) come from the renamed image; model texts stay those of the real bytes
+            ra = ascii_res[ci]
+            m_dom = ra[4]
+            m_sites = [[real[0]] + list(img[1:]) for real, img in zip(m_sites, ra[5])]
+            stats["non_ascii_named"] = stats.get("non_ascii_named", 0) + 1
         if m_dom != "true":
             stats["out_of_domain"] += 1
         # string and structure level
@@ -271,6 +323,11 @@ def run(rep):
     nrand = 20000 if thorough else 1500
     run_stream(rep, "random", [{"ty": T.random_type(rng, rng.randint(2, 6))} for _ in range(nrand)], stats)
     run_stream(rep, "random-clean", [{"ty": T.random_clean_type(rng, rng.randint(2, 6))} for _ in range(nrand)], stats)
+    uni = [{"ty": t} for t in T.spines(1, leaves=UNI_LEAVES)]
+    uni += [{"ty": t} for t in T.spines(3 if thorough else 2, leaves=UNI_CORE) if T.depth(t) >= 2]
+    uni += [{"ty": T.random_type(rng, rng.randint(2, 6), leaves=UNI_LEAVES)} for _ in range(5000 if thorough else 600)]
+    run_stream(rep, "unicode-names", uni, stats)
+    rep.extra["non_ascii_named_types"] = stats.get("non_ascii_named", 0)
     rep.add("raw", evaluate_raw(raw_cases(rng, 20000 if thorough else 3000)))
     rep.add("printers", evaluate_printers(x_cases()))
     if thorough:
